@@ -15,6 +15,8 @@ CONSTRUCTS = ["eqnil", "neqnil", "get", "or", "or-var", "or-chain", "unwrap-stmt
               "eq-plain", "plain-eq", "or-operand",
               # compositions: `get` applied directly to an `or` form whose fallback is a plain value / an optional variable (nil, present) / an optional
               # result (nil, present); the value of such an `or` form compared with nil.  Where the type checker refuses an optional fallback the case is skipped.
+              # `?=` onto a target that HOLDS A PRESENT VALUE (a nil operand must overwrite it)
+              "unwrap-stmt-over-present", "unwrap-if-over-present", "unwrap-while-over-present", "unwrap-expr-over-present",
               "get-or-plain", "get-or-optvar-nil", "get-or-optvar-present", "get-or-result-nil", "get-or-result-present", "or-optvar-eqnil"]
 MINPAREN_CONSTRUCTS = {"or-operand"}     # rendered with minimal parentheses: the construct is about how `or` groups with its neighbours
 POSITIONS = ["same", "block", "loop", "else", "block2", "fn", "escaped"]
@@ -100,6 +102,15 @@ def builtin_present_value():
 
 
 def construct_stmts(payload, construct, X, carrier, is_present):
+    if construct.endswith("-over-present"):
+        body = construct_stmts(payload, construct[:-len("-over-present")], X, carrier, is_present)
+        if body is None or body[0][:2] != ("assign", "a"):
+            return None
+        extra = []
+        if payload != "obj" and not is_present:
+            # the operand is nil: afterwards the target is nil, whatever it held
+            extra = []
+        return [("assign", "a", present(payload, True), TYPE[payload] + "?", ())] + body[1:] + extra
     T = TYPE[payload]
     pv = present(payload) if carrier != "builtin" else builtin_present_value()
     k = 1 if is_present else 0
@@ -185,7 +196,7 @@ def build(case):
     if cs is None:
         return None
     setup, X, wrap = cs
-    if construct == "unwrap-while" and carrier not in ("var",):
+    if construct.startswith("unwrap-while") and carrier not in ("var",):
         return None    # the while form draws from src(); one carrier suffices
     body = construct_stmts(payload, construct, X, carrier, is_present)
     if body is None:
@@ -194,6 +205,8 @@ def build(case):
     if decl_outside:
         # the `?=` target is declared in the enclosing block, the construct sits in the nested position
         if not construct.startswith("unwrap") or position == "same":
+            return None
+        if construct.endswith("-over-present") and construct.startswith("unwrap-while"):
             return None
         decl, rest = body[0], body[1:]
         # observations after the nested position, in the declaring block
@@ -243,7 +256,7 @@ class C12(Check):
     level = "model_checking"
     rule = ("all programs (payload in {int, str, [int...], class C}) x (carrier in {variable, parameter, function result, list element, "
             "field, built-in result (index_of), literal, map lookup (present / absent key)}) x (nil | present) x (construct in {== nil (both operand orders), != nil, get, "
-            "(x) or y with a logging y, (x) or v with a variable mentioned nowhere else, chained or, ?= as statement / expression value / if condition / while condition, present == plain, "
+            "(x) or y with a logging y, (x) or v with a variable mentioned nowhere else, chained or, ?= as statement / expression value / if condition / while condition - onto a target that is nil and onto one that holds a present value -, present == plain, "
             "plain == present, `get` applied directly to an `or` form with a plain / optional-variable (nil, present) / optional-result (nil, present) fallback, an `or` form with an optional fallback compared with nil}) x (position in {declaring block, nested block, else block, doubly nested block, loop body, nested function, closure called after the function that made it (and owns carrier and fallback) has returned}) "
             "x (?= target declared in the same block | in the enclosing block).  Oracle = reference interpreter; for a failing `get` the "
             "error must name file and line of that `get` with a column inside it.")
